@@ -89,6 +89,17 @@ type Field struct {
 	Req     Requiredness
 	Default *Val   // nil = none
 	Annot   string // raw annotation text, e.g. `go.redact`
+	// GoName is the name of the generated Go field when the annotations rename it
+	// (go.name); empty = Name.
+	GoName string
+}
+
+// GoIdent is the name of the generated Go struct field.
+func (f Field) GoIdent() string {
+	if f.GoName != "" {
+		return f.GoName
+	}
+	return f.Name
 }
 
 // Def is a definition.
